@@ -106,13 +106,19 @@ def train_metric(v, e):
     return 4.0 - v  # a different ordering from the validation metric
 
 
-def run_history(ctx, cfg, metrics, restarts, with_state, root_name="c15"):
-    """Runs one history on the real controller, checks it against the reference model, returns a summary."""
+def run_history(ctx, cfg, metrics, restarts, with_state, root_name="c15", memory_only=False, poke=False):
+    """Runs one history on the real controller, checks it against the reference model, returns a summary.
+    memory_only: no history file and no state directory at all (the history lives in the controller's cache only).
+    poke: the documented refresh entry point update_cache() is called before every update from the second on."""
     root = T.fresh_dir(root_name)
-    case = {"cfg": cfg, "metrics": list(metrics), "restarts": sorted(restarts), "with_state": with_state}
+    case = {"cfg": cfg, "metrics": list(metrics), "restarts": sorted(restarts), "with_state": with_state,
+            "memory_only": memory_only, "poke": poke}
 
     def build():
-        c = T.new_controller(cfg, root) if with_state else _ctrl_nostate(cfg, root)
+        if memory_only:
+            c = _ctrl_nostate(cfg, root, csv=False)
+        else:
+            c = T.new_controller(cfg, root) if with_state else _ctrl_nostate(cfg, root)
         m, o = T.new_model_optim(cfg)
         c.load_model_and_optimizer_for_epoch(m, o, c.get_last_epoch())
         return c, m, o
@@ -138,6 +144,18 @@ def run_history(ctx, cfg, metrics, restarts, with_state, root_name="c15"):
                               {"epoch": e - 1, "weight": w, "momentum": mb})
                 return None
         T.stamp(model, optim, e)
+        if poke and e > 1:
+            try:
+                ctrl.update_cache()
+            except Exception as ex:  # noqa: BLE001
+                ctx.violation({"api": "update_cache", "symptom": "raises", "type": type(ex).__name__}, case,
+                              {"epoch": e, "error": str(ex)[-300:]})
+                return None
+            if ctrl.get_last_epoch() != e - 1:
+                ctx.violation({"api": "update_cache", "symptom": "history-lost-after-refresh",
+                               "memory_only": memory_only}, dict(case, epoch=e),
+                              {"expected_last_epoch": e - 1, "observed": ctrl.get_last_epoch()})
+                return None
         try:
             cont = ctrl.update_for_epoch(model, optim, train_metric(v, e), v, **T.user_kwargs(cfg, e))
         except Exception as ex:  # noqa: BLE001
@@ -153,15 +171,17 @@ def run_history(ctx, cfg, metrics, restarts, with_state, root_name="c15"):
         bad = None
         if bool(cont) != rcont:
             bad = ("wrong-stop-decision", {"expected": rcont, "observed": bool(cont)})
-        elif abs(info["lr"] - rlr) > (5e-5 if restarts else 1e-9) * rlr:
+        elif abs(info["lr"] - rlr) > (5e-5 if (restarts or (poke and not memory_only)) else 1e-9) * rlr:
             bad = ("wrong-learning-rate-in-history", {"expected": rlr, "observed": info["lr"]})
-        elif any(abs(x - rlr) > (5e-5 if restarts else 1e-9) * rlr for x in olr):
+        elif any(abs(x - rlr) > (5e-5 if (restarts or (poke and not memory_only)) else 1e-9) * rlr for x in olr):
             bad = ("optimizer-rate-not-updated", {"expected": rlr, "observed": olr})
         elif info["val_met"] != v or info["train_met"] != train_metric(v, e) or info["epoch"] != e:
             bad = ("wrong-recorded-metrics", {"info": info})
         if bad:
-            ctx.violation({"api": "update_for_epoch", "symptom": bad[0], "restarted": bool(restarts)},
-                          dict(case, epoch=e), bad[1])
+            sig = {"api": "update_for_epoch", "symptom": bad[0], "restarted": bool(restarts)}
+            if memory_only or poke:
+                sig.update(memory_only=memory_only, refreshed_with_update_cache=poke)
+            ctx.violation(sig, dict(case, epoch=e), bad[1])
             return None
         decisions.append(bool(cont))
         lrs.append(info["lr"])
@@ -170,6 +190,8 @@ def run_history(ctx, cfg, metrics, restarts, with_state, root_name="c15"):
         if not cont:
             ctx.count("stops")
             break
+    if memory_only:
+        return {"decisions": decisions, "lrs": lrs, "csv": None, "infos": infos}
     # what a fresh controller reads back
     text = T.csv_text(root)
     try:
@@ -200,12 +222,12 @@ def run_history(ctx, cfg, metrics, restarts, with_state, root_name="c15"):
     return {"decisions": decisions, "lrs": lrs, "csv": text, "infos": infos}
 
 
-def _ctrl_nostate(cfg, root):
+def _ctrl_nostate(cfg, root, csv=True):
     import os
 
     from pydrobert.torch.training import TrainingStateController
 
-    c = TrainingStateController(T.make_params(cfg), os.path.join(root, "hist.csv"), None, warn=False)
+    c = TrainingStateController(T.make_params(cfg), os.path.join(root, "hist.csv") if csv else None, None, warn=False)
     for name in cfg.get("user_entries", ()):
         t, f = T.USER_TYPES[name]
         c.add_entry(name, t, f)
@@ -220,6 +242,22 @@ def _rules_case(ctx, cfg, metrics):
         if (ctx.counters["stops"], ctx.counters["rate_reductions"]) != before:
             ctx.nontrivial += 1
         ctx.outcome([res["decisions"], res["lrs"]])
+    # secondary entry points: the same history on a controller that keeps its history in memory only, refreshed
+    # through update_cache() before every update; and (every 4th case) csv-backed with the same refreshes
+    ctx._rules_n = getattr(ctx, "_rules_n", 0) + 1
+    for mem in ((True, False) if ctx._rules_n % 4 == 0 else (True,)):
+        ctx.evaluations += 1
+        ctx.count("histories_refreshed_with_update_cache")
+        alt = run_history(ctx, cfg, metrics, set(), with_state=False, memory_only=mem, poke=True)
+        if alt is not None and res is not None:
+            tol = 1e-9 if mem else 5e-5
+            same = alt["decisions"] == res["decisions"] and len(alt["lrs"]) == len(res["lrs"]) and all(
+                abs(a - b) <= tol * abs(b) for a, b in zip(alt["lrs"], res["lrs"]))
+            if not same:
+                ctx.violation({"api": "update_cache", "symptom": "refreshed-run-differs-from-plain-run",
+                               "memory_only": mem}, {"cfg": cfg, "metrics": list(metrics), "restarts": [],
+                                                     "with_state": False, "memory_only": mem, "poke": True},
+                              {"plain": [res["decisions"], res["lrs"]], "refreshed": [alt["decisions"], alt["lrs"]]})
 
 
 def _restart_case(ctx, cfg, metrics):
@@ -289,7 +327,8 @@ def run_shard(spec, tier, seed):
 def replay(case):
     ctx = Ctx()
     try:
-        run_history(ctx, case["cfg"], case["metrics"], set(case["restarts"]), case["with_state"])
+        run_history(ctx, case["cfg"], case["metrics"], set(case["restarts"]), case["with_state"],
+                    memory_only=case.get("memory_only", False), poke=case.get("poke", False))
         if case["restarts"]:
             _restart_case(ctx, case["cfg"], case["metrics"])
     finally:
